@@ -251,10 +251,10 @@ pub fn spec() -> CheckSpec {
         level: "exploration",
         rule: "message-heavy seeded swarm runs (C01 world) with non-default window configs; final ledger check after quiescence: every message sent on the winning chain and offered inside the windows is stored exactly once, intact and valid at every converged member of its epoch, losing-branch messages are not valid; a run is non-trivial when a message was processed after the recipient left the message's epoch and a rollback occurred; distinct = delivery signature",
         variants: vec![
-            Variant { name: "mem", profile: Profile { backend: BackendMix::Memory, ..base.clone() }, runs_quick: 300, runs_thorough: 15000, oracle: mk, guarded: false, configure_gen: None, post: None },
-            Variant { name: "mixed", profile: Profile { backend: BackendMix::Mixed, ..base.clone() }, runs_quick: 100, runs_thorough: 5000, oracle: mk, guarded: false, configure_gen: None, post: None },
-            Variant { name: "mem-guarded", profile: Profile { backend: BackendMix::Memory, guards: guards.clone(), allow_immediate: false, ..base.clone() }, runs_quick: 300, runs_thorough: 15000, oracle: mk, guarded: true, configure_gen: None, post: None },
-            Variant { name: "mixed-guarded", profile: Profile { backend: BackendMix::Mixed, guards: guards.clone(), allow_immediate: false, ..base.clone() }, runs_quick: 100, runs_thorough: 5000, oracle: mk, guarded: true, configure_gen: None, post: None },
+            Variant { name: "mem", profile: Profile { backend: BackendMix::Memory, ..base.clone() }, runs_quick: 300, runs_thorough: 15000, oracle: mk, guarded: false, configure_gen: None, post: None, custom: None },
+            Variant { name: "mixed", profile: Profile { backend: BackendMix::Mixed, ..base.clone() }, runs_quick: 100, runs_thorough: 5000, oracle: mk, guarded: false, configure_gen: None, post: None, custom: None },
+            Variant { name: "mem-guarded", profile: Profile { backend: BackendMix::Memory, guards: guards.clone(), allow_immediate: false, ..base.clone() }, runs_quick: 300, runs_thorough: 15000, oracle: mk, guarded: true, configure_gen: None, post: None, custom: None },
+            Variant { name: "mixed-guarded", profile: Profile { backend: BackendMix::Mixed, guards: guards.clone(), allow_immediate: false, ..base.clone() }, runs_quick: 100, runs_thorough: 5000, oracle: mk, guarded: true, configure_gen: None, post: None, custom: None },
         ],
         assumptions: vec!["honest members only", "obligation only for (message, client) pairs offered at least once inside the configured epoch windows while the client stood on the winning chain"],
         real: super::REAL.to_vec(),
